@@ -53,6 +53,8 @@ type callSpec struct {
 	Payload     *idl.V            `json:"payload,omitempty"`
 	SubMW       []mwSpec          `json:"sub_mw,omitempty"`
 	PubMW       []mwSpec          `json:"pub_mw,omitempty"`
+	SubErrorable    bool          `json:"sub_errorable,omitempty"`
+	SubHandlerFails bool          `json:"sub_handler_fails,omitempty"`
 	Frames      []string          `json:"frames,omitempty"`
 	Server      string            `json:"server,omitempty"`
 	Outcomes    []*outcomeSpec    `json:"outcomes,omitempty"`
@@ -79,6 +81,7 @@ type callResult struct {
 	ReplyFrames   []string          `json:"reply_frames"`
 	RequestFrames int               `json:"request_frames"`
 	Trace         []string          `json:"trace"`
+	CallbackErrs  []string          `json:"callback_errs"`
 	Topics        []string          `json:"topics"`
 	Err           string            `json:"err"`
 }
